@@ -70,6 +70,115 @@ def unwrap_val(v, keys):
         v = nxt[0]
     return v
 
+# ---- "protected sibling": a key added to ONE mapping of the OLDEST document only ------------------------------------------
+
+PSIB_KEY = 'zz7'
+PSIB_MSG = 'adding the sibling key'
+
+def raw_at(raw, path):
+    """the node at `path` of a document, or None (mapping steps only)"""
+    for h in path:
+        if 'm' not in raw:
+            return None
+        nxt = [c for k, c in raw['m'] if not isinstance(k, dict) and type(sc_py(k)) is type(h) and sc_py(k) == h]
+        if not nxt:
+            return None
+        raw = nxt[0]
+    return raw
+
+def add_key_at(raw, path, key, node):
+    """the document with `key: node` appended to the mapping at `path` (which must exist and be a mapping)"""
+    n = dict(raw)
+    if not path:
+        n['m'] = n['m'] + [[key, node]]
+        return n
+    h, rest = path[0], path[1:]
+    n['m'] = [[k, add_key_at(c, rest, key, node) if (not isinstance(k, dict) and type(sc_py(k)) is type(h) and sc_py(k) == h) else c]
+              for k, c in n['m']]
+    return n
+
+def psib_applicable(docs, path, key):
+    """the relation is stated for a mapping of the oldest document that is reached through string keys, none of them
+    repeated in its mapping, where every later document has nothing but untagged-kind mappings along that path (a list or a
+    scalar written over a container with protected content is C04 territory: D18, D29, D32), `key` occurs nowhere, and the
+    mapping is not at or below a !notnew node of the oldest document (content of the first stage is new by definition: the
+    added key itself would be refused, C01_notnew_first_doc_errors)"""
+    if len(docs) < 2 or not all(isinstance(k, str) for k in path):
+        return False
+    if any(key in p for d in docs for p, _ in G.paths_of(d['raw'])):
+        return False
+    def plain_map(n):
+        return 'm' in n and (n.get('t') or {}).get('k', 'plain') == 'plain'
+    for i, d in enumerate(docs):
+        cur = d['raw']
+        for j in range(len(path) + 1):
+            if not plain_map(cur):
+                return False
+            if i == 0 and (cur.get('kw') or {}).get('new') is False:
+                return False
+            if j == len(path):
+                break
+            nxt = [c for k, c in cur['m'] if not isinstance(k, dict) and sc_py(k) == path[j] and isinstance(sc_py(k), str)]
+            if len(nxt) > 1:
+                return False
+            if not nxt:
+                if i == 0:
+                    return False
+                break
+            cur = nxt[0]
+    return True
+
+def psib_choices(docs):
+    """candidate mappings of the oldest document; first those at or below a deleting mapping of a later document"""
+    cands = [list(p) for p, n in G.paths_of(docs[0]['raw']) if 'm' in n and psib_applicable(docs, list(p), PSIB_KEY)]
+    def below_del(p):
+        for d in docs[1:]:
+            for j in range(len(p) + 1):
+                n = raw_at(d['raw'], p[:j])
+                if n is not None and (n.get('kw') or {}).get('del') is True:
+                    return True
+        return False
+    hot = [p for p in cands if below_del(p)]
+    return hot or cands
+
+def drop_key_at(v, path, key):
+    """value JSON without `key` in the mapping at `path`; mappings along `path` that are left empty are dropped as well
+    (a protected entry keeps its ancestors alive under a deleting node and defeats the remove-this-key idiom: both are about
+    the ancestors of the added key, not about other paths)"""
+    if not isinstance(v, dict) or 'd' not in v:
+        return v
+    if not path:
+        return dict(v, d=[[k, x] for k, x in v['d'] if k != key])
+    h, rest = path[0], path[1:]
+    out = []
+    for k, x in v['d']:
+        if k == h and type(k) is type(h):
+            x = drop_key_at(x, rest, key)
+            if isinstance(x, dict) and x.get('d') == []:
+                continue
+        out.append([k, x])
+    return dict(v, d=out)
+
+def unordered(v):
+    """value JSON with the entries of every mapping sorted by key (where a surviving entry sits relative to the keys the newer
+    document writes is a matter of insertion order, not of content)"""
+    if isinstance(v, dict):
+        if 'd' in v:
+            return dict(v, d=sorted(([k, unordered(x)] for k, x in v['d']), key=lambda kv: json.dumps(kv[0])))
+        return {k: unordered(x) for k, x in v.items()}
+    if isinstance(v, list):
+        return [unordered(x) for x in v]
+    return v
+
+def explicit_del_above(docs, path):
+    """some later document carries an explicit `delete` on a mapping strictly above `path`"""
+    for d in docs[1:]:
+        for j in range(len(path)):
+            n = raw_at(d['raw'], path[:j])
+            if n is not None and (n.get('kw') or {}).get('del') is True:
+                return True
+    return False
+
 class C05(MergeFamProp):
     ID = 'C05'
     VOCAB = G.Vocab(prio=True, delete=True, new=True, unsafe=True, meta=True, notnew=True, clear=True)
@@ -79,7 +188,9 @@ class C05(MergeFamProp):
             'every document, with one key name renamed everywhere, and with one key renamed in one mapping only (the same path in every '
             'document; preferably a name that also occurs at another path); every related run is also compared with the model; a '
             'targeted family puts a deleting mapping over a tree with !force / !weak entries two and three levels down, all names from '
-            'a three-letter alphabet; non-trivial = at least two stages sharing a path; distinct by SHA-1')
+            'a three-letter alphabet, the newer side with !notnew mappings below the deleting one; one more related run adds a key '
+            '(!force, untagged or !weak) to ONE mapping of the oldest document only: outcome and data at every other path must not '
+            'change; non-trivial = at least two stages sharing a path; distinct by SHA-1')
     ASSUMPTIONS = ['error results are compared by class and (for !notnew errors) by the named path with the wrapping prefix removed']
 
     def corpus(self):
@@ -87,6 +198,14 @@ class C05(MergeFamProp):
         return [
             D(M({'a': M({'p': S(1), 'q': S(2)})}), M({'a': M({'q': S(3), 'k': S(5, kw={'prio': -1})}, kw={'del': True})})),   # D04 witness
             dict(D(M({'a': M({'p': S(1, kw={'prio': 1}), 'q': S(2)})}), M({'a': M({'q': S(3), 'x': S(5, kw={'prio': 1})}, kw={'del': True})})), wrap=['x']),
+            # D35 witness: a: {k: {x: 0}} <- a: !del {k: !notnew {x: 1}} builds {a: {k: {x: 1}}}; with the protected sibling
+            # p: !force 1 next to k the key loop ran _require_all_new without the removed paths and refused a.k
+            dict(D(M({'a': M({'k': M({'x': S(0)})})}), M({'a': M({'k': M({'x': S(1)}, kw={'new': False})}, kw={'del': True})})),
+                 psib=[['a'], 'p', 1, {'prio': 1}]),
+            # the same one level down (D39, recorded finding): the pruning that removed r.a.k is the one of r, the merge that
+            # needs the exception is the nested one of r.a
+            dict(D(M({'r': M({'a': M({'k': M({'x': S(0)})})})}), M({'r': M({'a': M({'k': M({'x': S(5)}, kw={'new': False})})}, kw={'del': True})})),
+                 psib=[['r', 'a'], 'p', 1, {'prio': 1}]),
         ]
 
     def gen_cases(self, rng, n, tier):
@@ -128,17 +247,57 @@ class C05(MergeFamProp):
                 k = nm()
                 if k in used: continue
                 used.add(k)
-                newer_items.append((k, leaf() if rng.random() < 0.7 else deep(1)))
+                v = leaf() if rng.random() < 0.6 else deep(1)
+                if 'm' in v and rng.random() < 0.6:      # a !notnew mapping below the deleting one: may only re-create removed paths
+                    v = M([(kk, cc) for kk, cc in v['m']], kw=dict(v.get('kw') or {}, new=False))
+                newer_items.append((k, v))
             newer = M([(r, M(newer_items, kw=dict(tag(), **{'del': True})))])
             docs = [{'raw': older}, {'raw': newer}]
             if rng.random() < 0.3:
                 docs.append({'raw': M([(r, deep(1))])})
             gen[(len(gen) - 1 - i) % len(gen)] = {'docs': docs, 'style': ['flow', 0, 0]}
+        # targeted family: a deleting mapping whose !notnew children re-create (part of) what its pruning removes, next to
+        # entries of the older mapping that may be protected; the added sibling goes into the mapping the deleting one meets
+        # (D35) or one level below it (D39)
+        forced = {}
+        for i in range(max(4, n // 10)):
+            al = rng.sample(['a', 'b', 'c', 'k', 'x'], 3)
+            tag = lambda: rng.choice([{}, {}, {}, {'prio': 1}, {'prio': -1}])
+            def tree(d):
+                items = []
+                for k in rng.sample(al, rng.choice([1, 2, 2, 3])):
+                    items.append((k, tree(d - 1) if d > 0 and rng.random() < 0.6 else S(rng.randrange(9), kw=tag())))
+                return M(items)
+            def again(n, top):
+                """a newer mapping over (part of) the keys of `n`, now and then a key that is not there; !notnew at one level"""
+                items = []
+                for k, c in n['m']:
+                    if rng.random() < 0.75:
+                        items.append((sc_py(k), again(c, False) if 'm' in c and rng.random() < 0.8 else S(rng.randrange(9))))
+                if rng.random() < 0.15:
+                    items.append((rng.choice(['n', 'y']), S(1)))
+                kw = {'new': False} if (not top and rng.random() < 0.6) else {}
+                return M(items, kw=kw)
+            r = rng.choice(al)
+            inner = tree(2)
+            older = M([(r, inner)])
+            newer = M([(r, M(again(inner, True)['m'], kw={'del': True}))])
+            subs = [[r] + [sc_py(k)] for k, c in inner['m'] if 'm' in c]
+            where = [r] if (not subs or rng.random() < 0.6) else rng.choice(subs)
+            j = (len(gen) // 2 + i) % len(gen)
+            gen[j] = {'docs': [{'raw': older}, {'raw': newer}], 'style': ['flow', 0, 0]}
+            forced[j] = [where, PSIB_KEY, 7, rng.choice([{'prio': 1}, {'prio': 1}, {'prio': 1}, {}])]
+        for j, c in enumerate(gen):
+            if j in forced and psib_applicable(c['docs'], forced[j][0], PSIB_KEY):
+                c['psib'] = forced[j]
         for c in gen:
             ks = keys_inside(c['docs'])
             c['wrap'] = [rng.choice(ks) for _ in range(rng.choice([1, 1, 2, 3]))]
             c['sib'] = [rng.choice(['zz', 'sib']), rng.choice([0, 'v', None])]
             c['vseed'] = rng.randrange(1000)
+            ch = psib_choices(c['docs'])
+            if ch and 'psib' not in c:
+                c['psib'] = [ch[rng.randrange(len(ch))], PSIB_KEY, 7, rng.choice([{'prio': 1}, {'prio': 1}, {}, {'prio': -1}])]
             out.append(c)
         return out
 
@@ -174,6 +333,11 @@ class C05(MergeFamProp):
             lp = ch[(case.get('vseed', 0) // 7) % len(ch)]
             info['local_rename'] = [list(lp[:-1]), lp[-1]]
             out['locally_renamed'] = [dict(d, raw=rename_at(d['raw'], list(lp[:-1]), lp[-1], 'zz8')) for d in case['docs']]
+        # a key added to one mapping of the oldest document only, with any priority ("unaffected by what sibling paths contain")
+        ps = case.get('psib')
+        if ps and psib_applicable(case['docs'], ps[0], ps[1]):
+            d0 = case['docs'][0]
+            out['protsib'] = [dict(d0, raw=add_key_at(d0['raw'], ps[0], ps[1], S(ps[2], kw=ps[3] or None)))] + case['docs'][1:]
         return out, info
 
     def impl(self, case):
@@ -268,6 +432,27 @@ class C05(MergeFamProp):
                     return f'adding the unrelated sibling key {sk!r} changed other paths: ' + d
         elif ('ok' in base) != ('ok' in s) and base.get('err') != 'merge' and s.get('err') != 'merge':
             return f'adding an unrelated sibling key changed the outcome: {base.get("err", "ok")} -> {s.get("err", "ok")}'
+        ps = io.get('protsib')
+        if ps is not None:
+            ppath, pkey, _, pkw = case['psib']
+            where = '.'.join(ppath) or '<root>'
+            how = {1: '!force ', -1: '!weak '}.get((pkw or {}).get('prio'), '')
+            outcome = lambda r: 'ok' if 'ok' in r else r.get('err', '?') + (f'(notnew {r["notnew"]})' if 'notnew' in r else '')
+            if ('ok' in base) != ('ok' in ps) or ('ok' not in base and (base.get('err'), base.get('notnew')) != (ps.get('err'), ps.get('notnew'))):
+                return (f'{PSIB_MSG} {how}{pkey!r} to the mapping at {where} of the oldest document changes the outcome: '
+                        f'{outcome(base)} -> {outcome(ps)}')
+            if 'ok' in base:
+                d = first_diff(unordered(drop_key_at(strip_ids(base['ok']), ppath, pkey)), unordered(drop_key_at(strip_ids(ps['ok']), ppath, pkey)))
+                if d:
+                    return f'{PSIB_MSG} {how}{pkey!r} to the mapping at {where} of the oldest document changes the merged content elsewhere: ' + d
+        return None
+
+    def finding_key(self, case, desc):
+        # D39: the paths removed by the pruning of a deleting mapping are exceptions of _require_all_new only in the merge of
+        # that mapping itself, not in the nested merges of the children that survive it
+        if desc and desc.startswith(PSIB_MSG) and 'changes the outcome' in desc and '(notnew ' in desc and case.get('psib'):
+            if explicit_del_above(case['docs'], case['psib'][0]):
+                return 'outer-pruning-not-excepted'
         return None
 
     def nontrivial(self, case, io):
